@@ -975,6 +975,18 @@ def scenario_campaign(ch, tr, st):
                 p = list(range(rows))[::-1]
                 nb.labels = [cs.labels[i] for i in p]
                 nb.V = {k: v[p] for k, v in cs.V.items()}
+            if ch.flip(1, 2, "lbl_general"):
+                # the general case: a drawn subset of the rows, up to two extra rows, in a drawn
+                # order (a superset of the other configuration's rows in a conflicting order, a
+                # partial overlap, ...)
+                keep = [i for i in range(rows) if ch.flip(3, 4, "lbl_keep")] or [0]
+                nextra = ch.draw(3, "lbl_extra")
+                labs = [cs.labels[i] for i in keep] + [f"{cs.name} extra{q}" for q in range(nextra)]
+                Vn = {k: np.vstack([v[keep]] + [rng.standard_normal((1, v.shape[1])) for _ in range(nextra)]) for k, v in cs.V.items()}
+                p = ch.perm(len(labs), "lbl_perm")
+                nb.labels = [labs[i] for i in p]
+                nb.V = {k: v[p] for k, v in Vn.items()}
+                nb.rows = len(labs)
             if nb.histpv is not None:
                 nb.histpv, nb.hist_idx = "all", list(range(nb.rows))
             catsB.append(nb)
